@@ -27,6 +27,7 @@ RULE += (' Also: builtin callables handing back awaitables (abs, operator.getite
 RULE += (' Also: the siblings of a failed tee child are compared to the end (class-based asynchronous sources).')
 RULE += (' Also: source / callable failures of the kind RuntimeError caused by Stop(Async)Iteration.')
 RULE += (' Also: faults that are proper subclasses of the standard exception types.')
+RULE += (' Also: inputs in which every occurrence of a key is the very same object.')
 ASSUMPTIONS = ["Stop(Async)Iteration / IndexError are never injected (their meaning is the language's, not the library's)",
                "closing a faulted source is release, not use"]
 EXHAUSTIVE = {"quick": False, "thorough": False}
